@@ -148,6 +148,11 @@ pub enum WireFault {
     /// the claimed type codes, including heights no real tree can be built for — filled with PRNG bytes;
     /// adjust_pk: also present a public key whose level count and type codes match it
     Synthetic { params: Vec<(u32, u32)>, cseed: u64, adjust_pk: bool },
+    /// chain extension: this envelope's signature was made over the LMS public key of another key (op
+    /// `ChildKeyAsNextMessage`); append that key as a further level — the signed bytes become a signed public
+    /// key, followed by everything of `child_env`'s signature — present the child's message and raise the level
+    /// count of the public key accordingly
+    Graft { child_env: usize },
 }
 
 #[derive(Serialize, Deserialize, Clone, Debug, PartialEq, Eq, Hash)]
@@ -210,6 +215,9 @@ pub enum Op {
     /// (same blob format), then offer it to the lifetime query, hbs_lms::sign, SigningKey::from_bytes and
     /// try_sign: a list beyond this build's limits must be refused, not used as some other key (C14)
     ForeignKey { key: usize, counter: u64 },
+    /// the next `Sign` of any process signs, instead of generated content, the LMS public key of key `child`
+    /// (its HSS public key without the level count), with its LMS / LM-OTS type code overwritten if given
+    ChildKeyAsNextMessage { child: usize, lms_type: Option<u32>, ots_type: Option<u32> },
     Load { proc: usize, how: LoadAs },
     Sign { proc: usize, msg: Msg, api: Api, cb: Cb, aux: Option<usize> },
     Lifetime { proc: usize },
@@ -240,6 +248,7 @@ impl Op {
             Op::KeygenLen { .. } => "KeygenLen",
             Op::Inject { .. } => "Inject",
             Op::ForeignKey { .. } => "ForeignKey",
+            Op::ChildKeyAsNextMessage { .. } => "ChildKeyAsNextMessage",
             Op::Load { .. } => "Load",
             Op::Sign { .. } => "Sign",
             Op::Lifetime { .. } => "Lifetime",
